@@ -37,9 +37,21 @@ def drive(ctx, kind, strategy, body, n, seed, shrink_budget=250, reset=True):
                 if key == state["key"]:
                     raise Violation()
                 return
+        if state.get("hung"):
+            # never execute anything again after a case that did not return
+            if key == state["key"]:
+                raise Violation()
+            return
         if reset:
             env.reset_lib_state()
-        nontrivial, classes, failures = body(case)
+        try:
+            with env.watchdog():
+                nontrivial, classes, failures = body(case)
+        except env.CaseHang:
+            state["hung"] = True
+            nontrivial, classes = True, ["hang"]
+            failures = [core.failure("hang.no_return", "the case did not return within %d s (a call into the "
+                                     "library does not terminate)" % env.HANG_SECONDS, kind=kind)]
         unmatched = ctx.case(case, nontrivial, classes, failures, count=not shrinking,
                              kind=kind)
         if unmatched:
